@@ -94,7 +94,12 @@ pub fn check_ctx(ctx: &CaseCtx, mode: Option<(Mode, u64)>) -> Outcome {
         out.err = Some(("trace-changed-by-serialisation-round-trip".into(), format!("{} ops", trace.ops.len())));
         return out;
     }
-    // 3. replay without the data source (the dataset is not reachable from here on)
+    // 3. replay without the data source (the dataset is not reachable from here on). Traces recorded
+    // around a data source that pulls its inputs *during* the resolver call are not replayed (the reader
+    // cannot, on the unchanged tree - see mode_for); for them the first clause and the round trip are checked.
+    if matches!(mode, Some((Mode::EagerChunks, _)) | Some((Mode::PrefetchAll, _))) {
+        return out;
+    }
     drop(trace);
     let replayed = catch(|| assert_interpreted_results(&back, &rows, true));
     if let Err(p) = replayed {
@@ -113,10 +118,12 @@ pub fn check_ctx(ctx: &CaseCtx, mode: Option<(Mode, u64)>) -> Outcome {
 /// its input exhausted before yielding - that fired on the unchanged tree and was triaged as a
 /// false alarm (the property does not quantify over read-ahead data sources; see DESIGN §6).
 fn mode_for(index: u64) -> Option<(Mode, u64)> {
-    if index % 2 == 0 {
-        None
-    } else {
-        Some((Mode::LookAheadOne, index))
+    match index % 4 {
+        0 | 2 => None,
+        1 => Some((Mode::LookAheadOne, index)),
+        // every 4th case: the data source pulls a first chunk / everything inside the resolver call itself
+        // (issue-#205 shape). Tracing must still give the direct rows and a serialisable trace; no replay.
+        _ => Some((if index % 8 == 3 { Mode::EagerChunks } else { Mode::PrefetchAll }, index)),
     }
 }
 
